@@ -22,3 +22,33 @@ Proofs/Walk.vos Proofs/Walk.vok Proofs/Walk.required_vos: Proofs/Walk.v Model/Da
 Proofs/DagApi.vo Proofs/DagApi.glob Proofs/DagApi.v.beautified Proofs/DagApi.required_vo: Proofs/DagApi.v Model/Dag.vo Proofs/Kahn.vo Proofs/Walk.vo
 Proofs/DagApi.vio: Proofs/DagApi.v Model/Dag.vio Proofs/Kahn.vio Proofs/Walk.vio
 Proofs/DagApi.vos Proofs/DagApi.vok Proofs/DagApi.required_vos: Proofs/DagApi.v Model/Dag.vos Proofs/Kahn.vos Proofs/Walk.vos
+Harness/Glue.vo Harness/Glue.glob Harness/Glue.v.beautified Harness/Glue.required_vo: Harness/Glue.v Lib/Bytes.vo Lib/Val.vo Model/Index.vo Model/Dag.vo
+Harness/Glue.vio: Harness/Glue.v Lib/Bytes.vio Lib/Val.vio Model/Index.vio Model/Dag.vio
+Harness/Glue.vos Harness/Glue.vok Harness/Glue.required_vos: Harness/Glue.v Lib/Bytes.vos Lib/Val.vos Model/Index.vos Model/Dag.vos
+Harness/Extract.vo Harness/Extract.glob Harness/Extract.v.beautified Harness/Extract.required_vo: Harness/Extract.v Harness/Glue.vo
+Harness/Extract.vio: Harness/Extract.v Harness/Glue.vio
+Harness/Extract.vos Harness/Extract.vok Harness/Extract.required_vos: Harness/Extract.v Harness/Glue.vos
+Proofs/RenderProof.vo Proofs/RenderProof.glob Proofs/RenderProof.v.beautified Proofs/RenderProof.required_vo: Proofs/RenderProof.v Lib/Bytes.vo Lib/Val.vo Model/Index.vo Proofs/IndexProof.vo
+Proofs/RenderProof.vio: Proofs/RenderProof.v Lib/Bytes.vio Lib/Val.vio Model/Index.vio Proofs/IndexProof.vio
+Proofs/RenderProof.vos Proofs/RenderProof.vok Proofs/RenderProof.required_vos: Proofs/RenderProof.v Lib/Bytes.vos Lib/Val.vos Model/Index.vos Proofs/IndexProof.vos
+Properties/C10.vo Properties/C10.glob Properties/C10.v.beautified Properties/C10.required_vo: Properties/C10.v Lib/Bytes.vo Lib/Val.vo Model/Index.vo Proofs/IndexProof.vo Proofs/RenderProof.vo
+Properties/C10.vio: Properties/C10.v Lib/Bytes.vio Lib/Val.vio Model/Index.vio Proofs/IndexProof.vio Proofs/RenderProof.vio
+Properties/C10.vos Properties/C10.vok Properties/C10.required_vos: Properties/C10.v Lib/Bytes.vos Lib/Val.vos Model/Index.vos Proofs/IndexProof.vos Proofs/RenderProof.vos
+AsFound/C10.vo AsFound/C10.glob AsFound/C10.v.beautified AsFound/C10.required_vo: AsFound/C10.v Lib/Bytes.vo Lib/Val.vo Model/Index.vo Proofs/IndexProof.vo Proofs/RenderProof.vo Properties/C10.vo
+AsFound/C10.vio: AsFound/C10.v Lib/Bytes.vio Lib/Val.vio Model/Index.vio Proofs/IndexProof.vio Proofs/RenderProof.vio Properties/C10.vio
+AsFound/C10.vos AsFound/C10.vok AsFound/C10.required_vos: AsFound/C10.v Lib/Bytes.vos Lib/Val.vos Model/Index.vos Proofs/IndexProof.vos Proofs/RenderProof.vos Properties/C10.vos
+Properties/C03.vo Properties/C03.glob Properties/C03.v.beautified Properties/C03.required_vo: Properties/C03.v Model/Dag.vo Proofs/DagApi.vo
+Properties/C03.vio: Properties/C03.v Model/Dag.vio Proofs/DagApi.vio
+Properties/C03.vos Properties/C03.vok Properties/C03.required_vos: Properties/C03.v Model/Dag.vos Proofs/DagApi.vos
+Properties/C09.vo Properties/C09.glob Properties/C09.v.beautified Properties/C09.required_vo: Properties/C09.v Model/Dag.vo Proofs/DagApi.vo
+Properties/C09.vio: Properties/C09.v Model/Dag.vio Proofs/DagApi.vio
+Properties/C09.vos Properties/C09.vok Properties/C09.required_vos: Properties/C09.v Model/Dag.vos Proofs/DagApi.vos
+AsFound/C03.vo AsFound/C03.glob AsFound/C03.v.beautified AsFound/C03.required_vo: AsFound/C03.v Model/Dag.vo Properties/C03.vo
+AsFound/C03.vio: AsFound/C03.v Model/Dag.vio Properties/C03.vio
+AsFound/C03.vos AsFound/C03.vok AsFound/C03.required_vos: AsFound/C03.v Model/Dag.vos Properties/C03.vos
+Properties/C01.vo Properties/C01.glob Properties/C01.v.beautified Properties/C01.required_vo: Properties/C01.v Lib/Bytes.vo Lib/Val.vo Model/Index.vo Proofs/IndexProof.vo
+Properties/C01.vio: Properties/C01.v Lib/Bytes.vio Lib/Val.vio Model/Index.vio Proofs/IndexProof.vio
+Properties/C01.vos Properties/C01.vok Properties/C01.required_vos: Properties/C01.v Lib/Bytes.vos Lib/Val.vos Model/Index.vos Proofs/IndexProof.vos
+AsFound/C01.vo AsFound/C01.glob AsFound/C01.v.beautified AsFound/C01.required_vo: AsFound/C01.v Lib/Bytes.vo Lib/Val.vo Model/Index.vo Proofs/IndexProof.vo Properties/C01.vo
+AsFound/C01.vio: AsFound/C01.v Lib/Bytes.vio Lib/Val.vio Model/Index.vio Proofs/IndexProof.vio Properties/C01.vio
+AsFound/C01.vos AsFound/C01.vok AsFound/C01.required_vos: AsFound/C01.v Lib/Bytes.vos Lib/Val.vos Model/Index.vos Proofs/IndexProof.vos Properties/C01.vos
